@@ -237,6 +237,12 @@ def rule_r2(ctx):
                     if isinstance(p, ast.For) and isinstance(p.target, ast.Name) and p.target.id == recv.id:
                         it = p.iter
                         ok = isinstance(it, ast.Call) and isinstance(it.func, ast.Attribute) and it.func.attr == "graphs"
+                    # … or of a comprehension `… for <g> in <model>.graphs() for v in <g>.initializers.values()`
+                    if isinstance(p, (ast.ListComp, ast.SetComp, ast.GeneratorExp, ast.DictComp)):
+                        for gen_ in p.generators:
+                            if isinstance(gen_.target, ast.Name) and gen_.target.id == recv.id:
+                                it = gen_.iter
+                                ok = isinstance(it, ast.Call) and isinstance(it.func, ast.Attribute) and it.func.attr == "graphs"
                     p = getattr(p, "_parent", None)
             ctx.check("R2", f"{f.local}: {norm(n)} iterates model.graphs()", ok, f, n,
                       "initializers are collected from one graph only: initializers of subgraphs are not saved/unloaded/restored",
